@@ -27,7 +27,7 @@ WALL = {"quick": 900, "thorough": 7200}
 
 
 def cases(tier):
-    return 500 if tier == "quick" else 20000
+    return 3500 if tier == "quick" else 80000
 
 
 def floors(tier):
